@@ -11,7 +11,7 @@ from ..fold import known
 from ..intervals import NEG, POS, IntSet, NotInterval, cond_to_intset
 from ..model import Func, own_nodes, src
 from ..pathsem import function_paths, resolve_local
-from .common import chain, deep_resolve, mentions, reachable_without_edges
+from .common import chain, deep_resolve, loop_body_paths, mentions, reachable_without_edges
 
 PROPERTY = "C10"
 LEVEL = "other"
@@ -331,8 +331,21 @@ def _traversal(ctx: Ctx, rep: Report, f: Func) -> None:  # noqa: C901
                 okc = True
             else:
                 why = f"the increment runs for positions {got} of {dom} (expected all but the last)"
-        if okc:
-            rep.ok(f"{f.qualname}: {snippet(inc.ast)}", "for every item except the last", where=where(f, inc.ast))
+        # no path through the loop body may bypass the guard altogether (e.g. a `continue` before it)
+        good_guards = [c for c, lab in conds]
+        bypass = None
+        if okc and body_start:
+            for path in loop_body_paths(cfg, loop):
+                if path[-1][0] is not loop:
+                    continue
+                nodes = [n for n, _ in path]
+                if inc not in nodes and not any(g in nodes for g in good_guards):
+                    bypass = path
+                    break
+        if okc and bypass is None:
+            rep.ok(f"{f.qualname}: {snippet(inc.ast)}", "for every item except the last, on every path through the loop body", where=where(f, inc.ast))
+        elif okc:
+            rep.violation(f.qualname, f"path {' -> '.join(snippet(n.ast, 30) for n, _ in bypass if n.ast is not None and n.kind != 'cond')[:160]} skips `{snippet(inc.ast)}`", "an item can be numbered without the running number advancing: the next line gets the same number", where(f, inc.ast), path=[repr(n) for n, _ in bypass], inp="an ACL with two groups: the item after the first group repeats the group's last number")
         else:
             rep.violation(f.qualname, snippet(inc.ast), why, where(f, inc.ast))
     # descent into groups (only where the class holds groups)
